@@ -10,7 +10,7 @@ Fixpoint norec (g : G) : bool :=
   | End | Empty | Any | Just _ | OneOf _ | NoneOf _ | Select _ _ | Custom _ _ | JustCfg _ | Var _ | Skip _ => true
   | Map _ a | MapWith _ a | To _ a | Ignored a | ToSpan a | ToSlice a | Filter _ a | TryMap _ _ _ a
   | TryMapWith _ _ _ a | Validate _ _ a | OrNot a | Not a | Rewind a | Labelled _ _ a | MapErr _ a
-  | WithCtx _ a | MapCtx _ a | Memo _ a | Rec a | NestedIn a | WithState _ a => norec a
+  | WithCtx _ a | MapCtx _ a | Memo _ a | Rec a | NestedIn a | WithState _ a | Padded _ a => norec a
   | Then a b | IgnoreThen a b | ThenIgnore a b | PaddedBy a b | Or a b | AndIs a b
   | IgnoreWithCtx a b | ThenWithCtx a b => norec a && norec b
   | DelimitedBy a b c => norec a && norec b && norec c
@@ -24,7 +24,7 @@ Fixpoint norec (g : G) : bool :=
   end
 with norec_it (i : IT) : bool :=
   match i with
-  | IRep a _ _ | IOrNot a | IRepCfg a _ _ _ => norec a
+  | IRep a _ _ | IOrNot a | IRepCfg a _ _ _ | IIntoIter a => norec a
   | ISep a s _ _ _ _ => norec a && norec s
   | IEnum j | IMap _ j | IMapWith _ j => norec_it j
   end
@@ -32,6 +32,14 @@ with norec_op (o : pop) : bool :=
   match o with PInfix _ _ g _ | PPrefix _ g _ | PPostfix _ g _ => norec g end.
 
 From Chum Require Import Extent.
+
+Lemma it_eager_norec ctx : forall i g, norec_it i = true -> it_eager i ctx = Some g -> norec g = true.
+Proof.
+  induction i as [a lo hi|a sep lo hi lead trail|j IHj|f j IHj|f j IHj|a|a lo hi ck|a]; intros g Hn H; cbn [it_eager] in H;
+    try discriminate; cbn [norec_it] in Hn; eauto.
+  - destruct (cfg_fails ck (val_count (cval ctx))); [|discriminate]. injection H as <-. reflexivity.
+  - injection H as <-. cbn. now rewrite Hn.
+Qed.
 
 Section Furthest.
 Variable K : ekind.
@@ -183,7 +191,7 @@ Qed.
 Lemma it_snext_mono : forall i ctx its p r x its' r', norec_it i = true -> envok ctx -> p <= length toks ->
   it_snext toks spn run i ctx its p r = Some (x, its', r') -> step_ok p r x r'.
 Proof.
-  induction i as [a lo hi|a sep lo hi lead trail|j IHj|f j IHj|f j IHj|a|a lo hi ck];
+  induction i as [a lo hi|a sep lo hi lead trail|j IHj|f j IHj|f j IHj|a|a lo hi ck|a];
     intros ctx its p r x its' r' Hn He Hp H; cbn [it_snext] in H; cbn [norec_it] in Hn.
   - destruct its; try discriminate.
     destruct (rep_snext run a lo hi ctx n p r) as [[[x0 c'] r0]|] eqn:E; [|discriminate].
@@ -206,6 +214,11 @@ Proof.
       injection H as <- <- <-. exact (rep_snext_mono _ _ _ _ _ _ _ _ _ _ Hn He Hp E).
     + destruct (run (TryMap PFalse FId k Empty) ctx p r) as [[[?|] r1]|] eqn:E; try discriminate.
       injection H as <- <- <-. apply HM in E; auto. destruct E as (E1 & E2). split; [exact E1 | apply E2; reflexivity].
+  - destruct its as [| | | | |[l|]]; try discriminate.
+    + destruct l; injection H as <- <- <-; (split; [apply rle_refl|exact I]).
+    + destruct (run a ctx p r) as [[[[[v1 p1] e1]|] a1]|] eqn:E; try discriminate.
+      * apply HM in E; auto. destruct (val_items v1); injection H as <- <- <-; (split; [apply E | exact I]).
+      * injection H as <- <- <-. apply HM in E; auto. destruct E as (E1 & E2). split; [exact E1 | apply E2; reflexivity].
 Qed.
 
 Lemma sdrive_mono : forall fuel i ctx its lim acc acce p r o r' p0, norec_it i = true -> envok ctx -> p <= length toks -> p0 <= p ->
@@ -472,7 +485,7 @@ Proof.
     match type of H with (match ?k with 0 => match ?x with Some e0 => _ | None => ?B end | S _ => _ end = ?rhs) =>
       match goal with |- ?Gl =>
         assert (HB : B = rhs -> Gl); [clear H; intros H|
-          destruct k; [destruct x; [exact (IH _ _ _ _ _ _ (eq_refl : norec (TryMap PFalse FId _ Empty) = true) He Hp H)|exact (HB H)]|exact (HB H)]] end end.
+          destruct k; [destruct x as [g0|] eqn:Eg; [exact (IH _ _ _ _ _ _ (it_eager_norec _ _ _ Hn Eg) He Hp H)|exact (HB H)]|exact (HB H)]] end end.
     destruct (sdrive toks spn (sem n) (S n0) i ctx (mk_iter i ctx) (Some n0) [] [] p a) as [[[[[[its fl] p1] e1]|] a1]|] eqn:E; try discriminate.
     + pose proof (sdrive_ext toks spn (sem n) IHE _ _ _ _ _ _ _ _ _ _ _ _ _ _ E Hp) as X.
       eapply (sdrive_mono _ IH IHE) with (p0 := p) in E; eauto. destruct E as (S1 & S2).
@@ -535,6 +548,11 @@ Proof.
   - (* WithState *) discriminate.
   - (* Skip *) injection H as <- <-. split; [apply rle_refl | discriminate].
   - (* ExtWrap *) discriminate.
+  - (* Padded *)
+    pose proof (skip_ws_ext toks ws (length toks) p Hp) as X0.
+    destruct (sem n g ctx (skip_ws toks (length toks) ws p) a) as [[[[[v1 p1] e1]|] a1]|] eqn:E1; try discriminate;
+      injection H as <- <-; destruct (IH _ _ _ _ _ _ Hn He (proj2 X0) E1) as (M1 & M2); split; auto; try discriminate.
+    intros _. eapply rge_le; [apply M2; reflexivity | lia].
 Qed.
 
 End Furthest.
